@@ -50,7 +50,14 @@ def fmt : P Fmt := do
 def nums (xs : List Nat) : String := joinSp (xs.map toString)
 
 def numLine (l : Line) : List Nat := l.length :: l.flatMap (fun p => [p.x, p.y])
-def numEt (e : EdgeTraversal) : List Nat := [e.edge, e.access, e.traversal, e.state.length] ++ e.state
+/-- `null` in the canonical lines: the all-ones pattern (see `NULL_PAYLOAD` in the harness) -/
+def shownPayload : Option Nat → Nat
+  | some b => b
+  | none => 18446744073709551615
+
+def numEt (e : EdgeTraversal) : List Nat :=
+  let r := e.rendered
+  [r.edge, shownPayload r.access, shownPayload r.traversal, r.state.length] ++ r.state.map shownPayload
 def numFeat (f : Feature) : List Nat := f.id :: (numEt f.props ++ numLine f.geom)
 def numBranch (b : Branch) : List Nat := b.terminal :: numEt b.et
 
@@ -148,15 +155,16 @@ def geomRow : P GeomRow := do
   | "w" => do let l ← line; pure (some l)
   | _ => failure
 
-/-- `readable intact gz crlf final_nl`: the last three only shape the bytes of the file -/
+/-- `is_file readable intact gz crlf final_nl`: the last three only shape the bytes of the file -/
 def fileShape {α : Type} (rows : P (List α)) : P (TableFile α) := do
+  let isFile ← bool
   let readable ← bool
   let intact ← bool
   let _ ← bool
   let _ ← bool
   let _ ← bool
   let rs ← rows
-  pure { readable := readable, intact := intact, rows := rs }
+  pure { readable := readable, isFile := isFile, intact := intact, rows := rs }
 
 def fileParam {α : Type} (rows : P (List α)) : P (FileParam α) := do
   let t ← next
@@ -203,6 +211,14 @@ def case : P String := do
     let tb ← table
     let r ← route
     pure (showRes showRouteOut (generateRouteOutput (tableOf tb) f r))
+  | "wkbhex" => do
+    -- an in-memory table that may hold non-finite coordinates: only the WKB text is compared
+    let tb ← table
+    let r ← route
+    match generateRouteOutput (tableOf tb) .wkb r with
+    | .ok (.wkb _ s) => pure ("ok " ++ s)
+    | .ok _ => pure "bad-case"
+    | .error e => pure (showErr e)
   | "tree" => do
     let f ← fmt
     let tb ← table
